@@ -39,11 +39,151 @@ theorem casNext_facts {c s t} (h : Inv c s) (hp : s.pc t = .eCas) (h0 : s.next (
     simp at hb; subst hb
     intro e; exact nm (e ▸ ha)
 
+set_option maxHeartbeats 1600000 in
 theorem inv_casNextOk {c s t} (h : Inv c s) (hp : s.pc t = .eCas) (h0 : s.next (s.tl t) = 0) :
     Inv c (casNextOk s t) := by
   have ⟨f1, f2, f3, f4, f5, f6⟩ := casNext_facts h hp h0
   have tlL := h.tl_live; have hdL := h.hd_live; have nextMem := h.next_mem; have lastU := h.last_unique
   simp only [HoldsTl, HoldsHd] at tlL hdL
-  inv_open h; simp only [casNextOk]; inv_dbg
+  inv_open h; simp only [casNextOk]; inv_close
+
+/-- a CAS that moves `q.tail` from `a` to `x = a->next ≠ NULL` -/
+theorem tail_move_facts {c s} (h : Inv c s) {x : Nat} (hx : s.next s.tail = x) (x0 : x ≠ 0) :
+    x ∈ s.chain ∧ x ≠ s.head ∧ s.next x = 0 ∧ x ≠ s.tail := by
+  have ⟨m1, m2⟩ := h.next_mem s.tail h.tail_in (by rw [hx]; exact x0)
+  rw [hx] at m1 m2
+  refine ⟨m1, m2, ?_, ?_⟩
+  · rcases h.tail_ok with r | r
+    · rw [hx] at r; exact absurd r x0
+    · rw [hx] at r; exact r
+  · intro e
+    rcases h.tail_ok with r | r
+    · rw [hx] at r; exact absurd r x0
+    · rw [hx] at r; rw [e, hx] at r; exact x0 r
+
+set_option maxHeartbeats 1600000 in
+theorem inv_casTailAdvOk {c s t} (h : Inv c s) (hp : s.pc t = .eAdv) (ht : s.tail = s.tl t) :
+    Inv c (casTailAdvOk s t) := by
+  have ⟨f1, f2, f3, f4⟩ := tail_move_facts h (x := s.node t) (by rw [ht]; exact (h.e_adv t hp).1) (h.e_adv t hp).2
+  have nextMem := h.next_mem
+  inv_open h; simp only [casTailAdvOk]; inv_close
+
+set_option maxHeartbeats 1600000 in
+theorem inv_casTailHelpOk {c s t} (h : Inv c s) (hp : s.pc t = .eHelp) (ht : s.tail = s.tl t) :
+    Inv c (casTailHelpOk s t) := by
+  have ⟨f1, f2, f3, f4⟩ := tail_move_facts h (x := s.nx t) (by rw [ht]; exact (h.e_help t hp).1) (h.e_help t hp).2
+  have nextMem := h.next_mem
+  inv_open h; simp only [casTailHelpOk]; inv_close
+
+set_option maxHeartbeats 1600000 in
+theorem inv_casTailDOk {c s t} (h : Inv c s) (hp : s.pc t = .dHelpT) (ht : s.tail = s.hd t) :
+    Inv c (casTailDOk s t) := by
+  have ⟨f1, f2, f3, f4⟩ := tail_move_facts h (x := s.nx t) (by rw [ht]; exact (h.d_nx t (by simp [hp])).1) (h.d_nx t (by simp [hp])).2
+  have nextMem := h.next_mem
+  inv_open h; simp only [casTailDOk]; inv_close
+
+theorem inv_ldNextNull {c s t} (h : Inv c s) (hp : s.pc t = .dLdN) : Inv c (ldNextNull s t) := by
+  have hdL := h.hd_live t (by simp [HoldsHd, hp])
+  inv_open h; simp only [ldNextNull]; inv_close
+
+theorem inv_ldNextGo1 {c s t} (h : Inv c s) (hp : s.pc t = .dLdN) (h0 : s.next (s.hd t) ≠ 0) (hc : c.helpTail = true) :
+    Inv c (ldNextGo c s t) := by
+  have hdL := h.hd_live t (by simp [HoldsHd, hp])
+  inv_open h; simp only [ldNextGo, hc]; inv_close
+
+theorem inv_ldNextGo2 {c s t} (h : Inv c s) (hp : s.pc t = .dLdN2) (hc : c.helpTail = true) :
+    Inv c (ldNextGo c s t) := by
+  have hdL := h.hd_live t (by simp [HoldsHd, hp])
+  inv_open h; simp only [ldNextGo, hc]; inv_close
+
+set_option maxHeartbeats 1600000 in
+theorem inv_ldNextAlloc {c s t d} (h : Inv c s) (hp : s.pc t = .dLdN) (h0 : s.next (s.hd t) = 0)
+    (d0 : d ≠ 0) (hf : s.life d = .fresh) : Inv c (ldNextAlloc s t d) := by
+  have hn : d ∉ s.chain := fun e => by have := (h.inq_iff _).mpr e; simp [hf] at this
+  have segc : Seg (upd s.next d 0) s.head s.chain :=
+    seg_congr h.seg (by intro x hx; have : x ≠ d := fun e => hn (e ▸ hx); simp [upd, this])
+  have filt : s.chain.filter (fun p => !(if p = d then true else s.isDummy p)) = s.chain.filter (fun p => !s.isDummy p) :=
+    filter_congr' (by intro x hx; have : x ≠ d := fun e => hn (e ▸ hx); simp [this])
+  have tlL := h.tl_live; have hdL := h.hd_live; have nextMem := h.next_mem
+  simp only [HoldsTl, HoldsHd] at tlL hdL
+  inv_open h; simp only [ldNextAlloc]; inv_close
+
+theorem casHead_facts {c s t} (h : Inv c s) (hp : s.pc t = .dCas) (hh : s.head = s.hd t) :
+    s.chain = s.head :: s.chain.tail ∧ Seg s.next (s.nx t) s.chain.tail ∧ s.chain.tail.Nodup ∧
+    s.head ∉ s.chain.tail ∧ s.tail ∈ s.chain.tail ∧ s.nx t ∈ s.chain.tail ∧ s.next s.head ≠ 0 := by
+  have hin := h.head_in
+  have h0 := seg_mem_ne_zero h.seg hin
+  obtain ⟨l, e, sg⟩ := seg_head h.seg h0
+  have ⟨n1, n2⟩ := h.d_nx t (by simp [hp])
+  rw [← hh] at n1
+  rw [n1] at sg
+  have nd := h.nodup
+  rw [e] at nd
+  have ⟨nd1, nd2⟩ := List.nodup_cons.mp nd
+  have tin := h.tail_in
+  have tne := h.d_tail t hp hh.symm
+  obtain ⟨l2, e2, _⟩ := seg_head sg n2
+  rw [e]
+  simp only [List.tail_cons]
+  refine ⟨trivial, sg, nd2, nd1, ?_, by rw [e2]; simp, by rw [n1]; exact n2⟩
+  rw [e] at tin
+  rcases List.mem_cons.mp tin with r | r
+  · exact absurd r tne
+  · exact r
+
+set_option maxHeartbeats 1600000 in
+theorem inv_casHeadOk {c s t} (ret : Bool) (h : Inv c s) (hp : s.pc t = .dCas) (hh : s.head = s.hd t)
+    (hd : s.isDummy (s.hd t) = !ret) : Inv c (casHeadOk s t ret) := by
+  have ⟨f1, f2, f3, f4, f5, f6, f7⟩ := casHead_facts h hp hh
+  have mem : ∀ x, x ∈ s.chain ↔ (x = s.head ∨ x ∈ s.chain.tail) := by
+    intro x; rw [f1]; simp
+  have filt : s.chain.filter (fun p => !s.isDummy p) =
+      if ret then s.head :: s.chain.tail.filter (fun p => !s.isDummy p) else s.chain.tail.filter (fun p => !s.isDummy p) := by
+    conv => lhs; rw [f1]
+    rw [List.filter_cons, hh, hd]; cases ret <;> simp
+  have tlL := h.tl_live; have hdL := h.hd_live; have nextMem := h.next_mem
+  simp only [HoldsTl, HoldsHd] at tlL hdL
+  have preOk := h.pre_ok; have clkCs := h.clk_cs
+  inv_open h; simp only [casHeadOk]; inv_close
+  intro p u hpu
+  by_cases e : p = s.hd t
+  · simp only [e, if_true] at hpu ⊢
+    cases ec : s.cs u with
+    | none => simp [ec] at hpu
+    | some b => exact ⟨b, rfl, Nat.le_of_lt (clkCs u b ec)⟩
+  · simp only [e, if_false] at hpu ⊢
+    exact preOk p u hpu
+
+/-- nobody inside a section holds a node whose grace period has elapsed -/
+theorem reclaim_not_held {c s p} (h : Inv c s) (hl : s.life p = .removed) (hg : gpElapsed c s p) :
+    (∀ t, HoldsTl (s.pc t) → s.tl t ≠ p) ∧ (∀ t, HoldsHd s t → s.hd t ≠ p) := by
+  constructor
+  · intro t ht e
+    cases ec : s.cs t with
+    | none => have := h.op_cs t ec; simp [HoldsTl, this] at ht
+    | some b =>
+      have := h.tl_held t ht b ec
+      rw [e] at this
+      rcases this with r | r
+      · rw [hl] at r; cases r
+      · have := hg t (h.cs_n t b ec) b ec; omega
+  · intro t ht e
+    cases ec : s.cs t with
+    | none => have := h.op_cs t ec; simp [HoldsHd, this] at ht
+    | some b =>
+      have := h.hd_held t ht b ec
+      rw [e] at this
+      rcases this with r | r
+      · rw [hl] at r; cases r
+      · have := hg t (h.cs_n t b ec) b ec; omega
+
+set_option maxHeartbeats 1600000 in
+theorem inv_reclaimS {c s p} (h : Inv c s) (hl : s.life p = .removed) (hg : gpElapsed c s p) :
+    Inv c (reclaimS s p) := by
+  have ⟨nh1, nh2⟩ := reclaim_not_held h hl hg
+  have hn : p ∉ s.chain := fun e => by have := (h.inq_iff _).mpr e; simp [hl] at this
+  have tin := h.tail_in
+  simp only [HoldsTl, HoldsHd] at nh1 nh2
+  inv_open h; simp only [reclaimS]; inv_dbg
 
 end UrcuVerif.Lfq
